@@ -196,7 +196,215 @@ theorem CountSpec.to_and {K K' : Csc α} {l : List (Entry α)} (h : CountSpec K 
       ∀ c, K'.colptr[c]? = (K.colptr[c]?).map (· + cnt c l) :=
   ⟨h.colptr_size, ⟨h.m_eq, h.n_eq, h.rowval_eq, h.nzval_eq⟩, h.colptr_get⟩
 
-variable {α : Type} [OfNat α 0]
+-- ------------------------------------------------------------------ `mapM` in `Except`
+
+/-- pointwise relation of two lists (core has no `All₂`) -/
+inductive All₂ {β γ : Type} (R : β → γ → Prop) : List β → List γ → Prop
+  | nil : All₂ R [] []
+  | cons {a b l r} : R a b → All₂ R l r → All₂ R (a :: l) (b :: r)
+
+theorem All₂.length_eq {β γ : Type} {R : β → γ → Prop} {l : List β} {r : List γ}
+    (h : All₂ R l r) : l.length = r.length := by
+  induction h with
+  | nil => rfl
+  | cons _ _ ih => simp [ih]
+
+/-- `if c then throw e; k` succeeded: the guard was false and the continuation ran -/
+theorem ite_throw_ok {γ δ : Type} {c : Prop} [Decidable c] {e : ModelErr} {k : δ → MErr γ}
+    {k' : MErr γ} {r : γ}
+    (h : (if c then ((throw e : MErr δ) >>= k) else k') = .ok r) : ¬ c ∧ k' = .ok r := by
+  split at h
+  · cases h
+  · exact ⟨by assumption, h⟩
+
+theorem mapM_ok {β γ : Type} (f : β → MErr γ) :
+    ∀ (l : List β) (r : List γ), l.mapM f = .ok r → All₂ (fun a b => f a = .ok b) l r
+  | [], r, h => by
+    simp [pure, Except.pure] at h
+    subst h
+    exact .nil
+  | a :: l, r, h => by
+    rw [List.mapM_cons] at h
+    obtain ⟨b, hb, h⟩ := bind_ok h
+    obtain ⟨bs, hbs, h⟩ := bind_ok h
+    simp only [pure, Except.pure] at h
+    cases h
+    exact .cons hb (mapM_ok f l bs hbs)
+
+theorem forall₂_map_eq {β γ δ : Type} {R : β → γ → Prop} (F : β → δ) (G : γ → δ)
+    (hRG : ∀ a b, R a b → F a = G b) {l : List β} {r : List γ} (h : All₂ R l r) :
+    l.map F = r.map G := by
+  induction h with
+  | nil => rfl
+  | cons hab _ ih => simp [hRG _ _ hab, ih]
+
+theorem forall₂_right_all {β γ : Type} {R : β → γ → Prop} (P : γ → Prop)
+    (hRP : ∀ a b, R a b → P b) {l : List β} {r : List γ} (h : All₂ R l r) :
+    ∀ b ∈ r, P b := by
+  induction h with
+  | nil => simp
+  | cons hab _ ih =>
+    intro b hb
+    rcases List.mem_cons.mp hb with rfl | hb
+    · exact hRP _ _ hab
+    · exact ih b hb
+
+theorem getD_of_getE {β : Type} {xs : Array β} {i : Nat} {s : String} {v : β} (d : β)
+    (h : getE xs i s = .ok v) : xs.getD i d = v := by
+  rw [getE_ok] at h
+  simp [Array.getD_eq_getD_getElem?, h]
+
+theorem sum_ite_eq_countP {ι : Type} (f : ι → Nat) (c : Nat) (l : List ι) :
+    (l.map (fun k => if f k = c then 1 else 0)).sum = l.countP (fun k => f k == c) := by
+  rw [countP_eq_sum]
+  simp
+
+-- ------------------------------------------------------------------ blocks
+
+/-- well-formedness of the column pointers of a source block: the per-column storage ranges
+`colptr[i] .. colptr[i+1]`, `i < n`, tile `0 .. rowval.len()` -/
+structure WF (M : Csc α) : Prop where
+  zero : M.colptr.getD 0 0 = 0
+  mono : ∀ i, i < M.n → M.colptr.getD i 0 ≤ M.colptr.getD (i + 1) 0
+  last : M.colptr.getD M.n 0 = M.rowval.size
+
+theorem flatMap_ranges (cp : Array Nat) (h0 : cp.getD 0 0 = 0) (k : Nat)
+    (hmono : ∀ i, i < k → cp.getD i 0 ≤ cp.getD (i + 1) 0) :
+    (List.range k).flatMap (fun i => List.range' (cp.getD i 0) (cp.getD (i + 1) 0 - cp.getD i 0))
+      = List.range' 0 (cp.getD k 0) := by
+  induction k with
+  | zero => simp [h0]
+  | succ k ih =>
+    rw [List.range_succ, List.flatMap_append, ih (fun i hi => hmono i (by omega))]
+    simp only [List.flatMap_cons, List.flatMap_nil, List.append_nil]
+    have := hmono k (by omega)
+    have h1 : List.range' (cp.getD k 0) (cp.getD (k + 1) 0 - cp.getD k 0)
+        = List.range' (0 + cp.getD k 0) (cp.getD (k + 1) 0 - cp.getD k 0) := by simp
+    rw [h1, List.range'_append_1]
+    congr 1
+    omega
+
+theorem map_getD_range' (xs : Array Nat) (ic : Nat) :
+    (List.range' 0 xs.size).map (fun j => xs.getD j 0 + ic) = xs.toList.map (· + ic) := by
+  apply List.ext_getElem
+  · simp
+  · intro i h1 h2
+    simp at h1
+    simp [Array.getD_eq_getD_getElem?, h1]
+
+theorem cnt_eq_countP_readCol (c : Nat) (l : List (Entry α)) :
+    cnt c l = (l.map (·.readCol)).countP (· == c) := by
+  unfold cnt
+  rw [List.countP_map]
+  rfl
+
+/-- the columns read by the transposed block schedule are the row indices of `M`, in storage
+order, shifted by `initcol` -/
+theorem blockSchedule_T_readCol {M : Csc α} {initrow initcol : Nat} {s : List (Entry α)}
+    (hwf : WF M) (hs : blockSchedule M initrow initcol .T = .ok s) :
+    s.map (·.readCol) = M.rowval.toList.map (· + initcol) := by
+  unfold blockSchedule at hs
+  obtain ⟨cols, hcols, hs⟩ := bind_ok hs
+  simp only [pure, Except.pure] at hs
+  cases hs
+  have hF := mapM_ok _ _ _ hcols
+  have key : (List.range M.n).map (fun i =>
+        (List.range' (M.colptr.getD i 0) (M.colptr.getD (i + 1) 0 - M.colptr.getD i 0)).map
+          (fun j => M.rowval.getD j 0 + initcol))
+      = cols.map (fun col => col.map (·.readCol)) := by
+    refine forall₂_map_eq _ _ ?_ hF
+    intro i col hi
+    obtain ⟨start, hstart, hi⟩ := bind_ok hi
+    obtain ⟨stop, hstop, hi⟩ := bind_ok hi
+    rw [getD_of_getE 0 hstart, getD_of_getE 0 hstop]
+    refine forall₂_map_eq _ _ ?_ (mapM_ok _ _ _ hi)
+    intro j e hj
+    obtain ⟨r, hr, hj⟩ := bind_ok hj
+    obtain ⟨v, hv, hj⟩ := bind_ok hj
+    simp only [pure, Except.pure] at hj
+    cases hj
+    rw [getD_of_getE 0 hr]
+    rfl
+  rw [List.map_flatten, ← map_getD_range', ← hwf.last,
+    ← flatMap_ranges M.colptr hwf.zero M.n hwf.mono, List.flatMap_def, List.map_flatten,
+    List.map_map]
+  exact congrArg List.flatten key.symm
+
+theorem cnt_blockSchedule_T {M : Csc α} {initrow initcol : Nat} {s : List (Entry α)}
+    (hwf : WF M) (hs : blockSchedule M initrow initcol .T = .ok s) (c : Nat) :
+    cnt c s = M.rowval.toList.countP (fun r => initcol + r == c) := by
+  rw [cnt_eq_countP_readCol, blockSchedule_T_readCol hwf hs, List.countP_map]
+  apply List.countP_congr
+  intro r _
+  simp [Nat.add_comm]
+
+theorem cnt_blockSchedule_N {M : Csc α} {initrow initcol : Nat} {s : List (Entry α)}
+    (hs : blockSchedule M initrow initcol .N = .ok s) (c : Nat) :
+    cnt c s = ((List.range M.n).map (fun i =>
+      if initcol + i = c then M.colptr.getD (i + 1) 0 - M.colptr.getD i 0 else 0)).sum := by
+  unfold blockSchedule at hs
+  obtain ⟨cols, hcols, hs⟩ := bind_ok hs
+  simp only [pure, Except.pure] at hs
+  cases hs
+  rw [cnt_flatten]
+  congr 1
+  refine (forall₂_map_eq _ _ ?_ (mapM_ok _ _ _ hcols)).symm
+  intro i col hi
+  obtain ⟨start, hstart, hi⟩ := bind_ok hi
+  obtain ⟨stop, hstop, hi⟩ := bind_ok hi
+  rw [getD_of_getE 0 hstart, getD_of_getE 0 hstop]
+  have hF := mapM_ok _ _ _ hi
+  have hall : ∀ e ∈ col, e.readCol = initcol + i := by
+    refine forall₂_right_all _ ?_ hF
+    intro j e hj
+    obtain ⟨r, hr, hj⟩ := bind_ok hj
+    obtain ⟨v, hv, hj⟩ := bind_ok hj
+    simp only [pure, Except.pure] at hj
+    cases hj
+    exact Nat.add_comm _ _
+  have hlen : col.length = stop - start := by
+    rw [← hF.length_eq]; simp
+  rw [cnt_const_col c (initcol + i) col hall, hlen]
+
+theorem colcountBlock_T_spec {K K' M : Csc α} {initrow initcol : Nat} {s : List (Entry α)}
+    (hwf : WF M) (h : colcountBlock K M initcol .T = .ok K')
+    (hs : blockSchedule M initrow initcol .T = .ok s) : CountSpec K K' s := by
+  unfold colcountBlock at h
+  obtain ⟨cp, hcp, h⟩ := bind_ok h
+  simp only [pure, Except.pure] at h
+  cases h
+  obtain ⟨hsz, hg⟩ := foldlM_stepSpec _ (fun r => initcol + r) (fun _ => 1) _
+    (fun k _ cp cp' h => stepSpec_addAt h) _ _ hcp
+  exact CountSpec.of_colptr hsz (fun c => by
+    rw [hg c, sum_ite_eq_countP, cnt_blockSchedule_T hwf hs])
+
+theorem colcountBlock_N_spec {K K' M : Csc α} {initrow initcol : Nat} {s : List (Entry α)}
+    (h : colcountBlock K M initcol .N = .ok K')
+    (hs : blockSchedule M initrow initcol .N = .ok s) : CountSpec K K' s := by
+  unfold colcountBlock at h
+  obtain ⟨cp, hcp, h⟩ := bind_ok h
+  simp only [pure, Except.pure] at h
+  cases h
+  obtain ⟨hsz, hg⟩ := foldlM_stepSpec _ (fun i => initcol + i)
+    (fun i => M.colptr.getD (i + 1) 0 - M.colptr.getD i 0) _ (by
+      intro i _ cp cp' hi
+      obtain ⟨lo, hlo, hi⟩ := bind_ok hi
+      obtain ⟨hi', hhi, hi⟩ := bind_ok hi
+      obtain ⟨_, hi⟩ := ite_throw_ok hi
+      simp only [getD_of_getE 0 hlo, getD_of_getE 0 hhi]
+      exact stepSpec_addAt hi) _ _ hcp
+  exact CountSpec.of_colptr hsz (fun c => by rw [hg c, cnt_blockSchedule_N hs])
+
+/-- `colcount_block` counts the schedule of `fill_block` (any `initrow`; the transposed
+shape needs well-formed column pointers of the source) -/
+theorem colcountBlock_spec {K K' M : Csc α} {initrow initcol : Nat} {shape : MatrixShape}
+    {s : List (Entry α)} (hwf : WF M) (h : colcountBlock K M initcol shape = .ok K')
+    (hs : blockSchedule M initrow initcol shape = .ok s) : CountSpec K K' s := by
+  cases shape with
+  | N => exact colcountBlock_N_spec h hs
+  | T => exact colcountBlock_T_spec hwf h hs
+
+variable [OfNat α 0]
 
 -- ------------------------------------------------------------------ diag / rowvec / colvec
 
@@ -320,5 +528,367 @@ theorem colcountDenseTriangle_tril_spec {K K' : Csc α} {off d : Nat}
   obtain ⟨hs, hg⟩ := foldlM_stepSpec _ (fun k => off + k) (fun k => d - k) _
     (fun k _ cp cp' h => stepSpec_addAt h) _ _ hcp
   exact CountSpec.of_colptr hs (fun c => by rw [hg c, sum_range_single, cnt_denseTrilSchedule])
+
+/-- `colcount_dense_triangle` counts the schedule of `fill_dense_triangle` -/
+theorem colcountDenseTriangle_spec {K K' : Csc α} {off d : Nat} {shape : MatrixTriangle}
+    (h : colcountDenseTriangle K off d shape = .ok K') :
+    CountSpec K K' (match shape with
+      | .triu => denseTriuSchedule off d
+      | .tril => denseTrilSchedule off d) := by
+  cases shape with
+  | triu => exact colcountDenseTriangle_triu_spec h
+  | tril => exact colcountDenseTriangle_tril_spec h
+
+-- ------------------------------------------------------------------ missing diagonal
+
+/-- `1` if column `i` of `M` lacks its diagonal entry -/
+def missAmt (M : Csc α) (i : Nat) : Nat :=
+  match missingDiagAt M i with
+  | .ok true => 1
+  | _ => 0
+
+theorem cnt_missingDiagSchedule {M : Csc α} {initcol : Nat} {s : List (Entry α)}
+    (hs : missingDiagSchedule M initcol = .ok s) (c : Nat) :
+    cnt c s = ((List.range M.n).map (fun i => if i + initcol = c then missAmt M i else 0)).sum := by
+  unfold missingDiagSchedule at hs
+  obtain ⟨es, hes, hs⟩ := bind_ok hs
+  simp only [pure, Except.pure] at hs
+  cases hs
+  rw [cnt_flatten]
+  congr 1
+  refine (forall₂_map_eq _ _ ?_ (mapM_ok _ _ _ hes)).symm
+  intro i e hi
+  obtain ⟨b, hb, hi⟩ := bind_ok hi
+  cases b with
+  | false =>
+    simp only [pure, Except.pure, Bool.false_eq_true, if_false] at hi
+    cases hi
+    simp [missAmt, hb, cnt]
+  | true =>
+    simp only [pure, Except.pure, if_true] at hi
+    cases hi
+    simp [missAmt, hb, cnt]
+
+theorem colcountMissingDiag_spec {K K' M : Csc α} {initcol : Nat} {s : List (Entry α)}
+    (h : colcountMissingDiag K M initcol = .ok K')
+    (hs : missingDiagSchedule M initcol = .ok s) : CountSpec K K' s := by
+  unfold colcountMissingDiag at h
+  obtain ⟨_, h⟩ := ite_throw_ok h
+  obtain ⟨_, h⟩ := ite_throw_ok h
+  obtain ⟨cp, hcp, h⟩ := bind_ok h
+  simp only [pure, Except.pure] at h
+  cases h
+  obtain ⟨hsz, hg⟩ := foldlM_stepSpec _ (fun i => i + initcol) (missAmt M) _ (by
+      intro i _ cp cp' hi
+      obtain ⟨b, hb, hi⟩ := bind_ok hi
+      cases b with
+      | false =>
+        simp only [pure, Except.pure, Bool.false_eq_true, if_false] at hi
+        cases hi
+        simpa [missAmt, hb] using stepSpec_pure cp (i + initcol)
+      | true =>
+        simp only [if_true] at hi
+        simpa [missAmt, hb] using stepSpec_addAt hi) _ _ hcp
+  exact CountSpec.of_colptr hsz (fun c => by rw [hg c, cnt_missingDiagSchedule hs])
+
+-- ------------------------------------------------------------------ sparse expansions
+
+/-- `csc_colcount_sparsecone` counts the schedule of `csc_fill_sparsecone` -/
+theorem colcountSparsecone_spec {c : ConeSpec} {K K' : Csc α} {row col : Nat}
+    {shape : MatrixTriangle} (h : colcountSparsecone c K row col shape = .ok K') :
+    CountSpec K K' (sparseSchedule c row col shape) := by
+  cases c with
+  | soc nvars =>
+    unfold colcountSparsecone at h
+    cases shape with
+    | triu =>
+      simp only [] at h
+      obtain ⟨Ka, ha, h⟩ := bind_ok h
+      obtain ⟨Kb, hb, hd⟩ := bind_ok h
+      exact ((colcountColvec_spec ha).trans (colcountColvec_spec hb)).trans
+        (colcountDiag_spec hd)
+    | tril =>
+      simp only [] at h
+      obtain ⟨Ka, ha, h⟩ := bind_ok h
+      obtain ⟨Kb, hb, hd⟩ := bind_ok h
+      exact ((colcountRowvec_spec ha).trans (colcountRowvec_spec hb)).trans
+        (colcountDiag_spec hd)
+  | genpow dim1 dim2 =>
+    unfold colcountSparsecone at h
+    cases shape with
+    | triu =>
+      simp only [] at h
+      obtain ⟨Ka, ha, h⟩ := bind_ok h
+      obtain ⟨Kb, hb, h⟩ := bind_ok h
+      obtain ⟨Kc, hc, hd⟩ := bind_ok h
+      exact (((colcountColvec_spec ha).trans (colcountColvec_spec hb)).trans
+        (colcountColvec_spec hc)).trans (colcountDiag_spec hd)
+    | tril =>
+      simp only [] at h
+      obtain ⟨Ka, ha, h⟩ := bind_ok h
+      obtain ⟨Kb, hb, h⟩ := bind_ok h
+      obtain ⟨Kc, hc, hd⟩ := bind_ok h
+      exact (((colcountRowvec_spec ha).trans (colcountRowvec_spec hb)).trans
+        (colcountRowvec_spec hc)).trans (colcountDiag_spec hd)
+  | zero d => cases h
+  | nonneg d => cases h
+  | exp => cases h
+  | pow => cases h
+  | psd n => cases h
+
+-- ------------------------------------------------------------------ one cone
+
+/-- the sparse-expansion half of the body of the cone loop of `_kkt_assemble_colcounts` -/
+def coneTail (shape : MatrixTriangle) (cone : ConeSpec) (row pcol : Nat) (K : Csc α) :
+    MErr (Csc α × Nat) :=
+  if cone.isSparseExpandable then
+    colcountSparsecone cone K row pcol shape >>= fun K =>
+      pure (K, pcol + (if let .soc _ := cone then 2 else 3))
+  else pure (K, pcol)
+
+/-- the body of the cone loop of `_kkt_assemble_colcounts` -/
+def coneStep (n : Nat) (shape : MatrixTriangle) (st : Csc α × Nat) (cs : ConeSpec × Nat) :
+    MErr (Csc α × Nat) :=
+  match st with
+  | (K, pcol) =>
+    match cs with
+    | (cone, start) =>
+      if cone.hsIsDiagonal then
+        colcountDiag K (start + n) cone.numel >>= coneTail shape cone (start + n) pcol
+      else
+        colcountDenseTriangle K (start + n) cone.numel shape >>= coneTail shape cone (start + n) pcol
+
+omit [OfNat α 0] in
+theorem kktAssembleColcounts_eq (K P A : Csc α) (cones : List ConeSpec) (shape : MatrixTriangle) :
+    kktAssembleColcounts K P A cones shape = (do
+      let K0 : Csc α := { K with colptr := Array.replicate K.colptr.size 0 }
+      let K1 ← match shape with
+        | .triu => do
+          let K ← colcountBlock K0 P 0 .N
+          let K ← colcountMissingDiag K P 0
+          colcountBlock K A A.n .T
+        | .tril => do
+          let K ← colcountMissingDiag K0 P 0
+          let K ← colcountBlock K P 0 .T
+          colcountBlock K A 0 .N
+      let r ← (cones.zip (rngConesStart cones)).foldlM (coneStep A.n shape) (K1, A.m + A.n)
+      pure r.1) := rfl
+
+theorem coneTail_spec {shape : MatrixTriangle} {K K' : Csc α} {row pcol pcol' : Nat}
+    {c : ConeSpec} (h : coneTail shape c row pcol K = .ok (K', pcol')) :
+    CountSpec K K' (if c.isSparseExpandable then sparseSchedule c row pcol shape else []) ∧
+      pcol' = pcol + conePdim c := by
+  unfold coneTail at h
+  unfold conePdim
+  by_cases hsp : c.isSparseExpandable = true
+  · simp only [hsp, if_true] at h ⊢
+    obtain ⟨K2, h3, h4⟩ := bind_ok h
+    simp only [pure, Except.pure, Except.ok.injEq, Prod.mk.injEq] at h4
+    obtain ⟨rfl, rfl⟩ := h4
+    refine ⟨colcountSparsecone_spec h3, ?_⟩
+    cases c <;> first | rfl | simp [ConeSpec.isSparseExpandable] at hsp
+  · simp only [hsp, if_false, Bool.false_eq_true] at h ⊢
+    simp only [pure, Except.pure, Except.ok.injEq, Prod.mk.injEq] at h
+    obtain ⟨rfl, rfl⟩ := h
+    exact ⟨CountSpec.refl K, rfl⟩
+
+theorem coneStep_spec {n : Nat} {shape : MatrixTriangle} {K K' : Csc α} {pcol pcol' : Nat}
+    {c : ConeSpec} {r : Nat} (h : coneStep n shape (K, pcol) (c, r) = .ok (K', pcol')) :
+    CountSpec K K' (coneSchedule c (r + n) pcol shape) ∧ pcol' = pcol + conePdim c := by
+  unfold coneStep at h
+  simp only [] at h
+  unfold coneSchedule
+  split at h
+  · rename_i hd
+    obtain ⟨K1, h1, h2⟩ := bind_ok h
+    obtain ⟨ht, hp⟩ := coneTail_spec h2
+    exact ⟨((colcountDiag_spec h1).trans ht).congr (by simp [hd]), hp⟩
+  · rename_i hd
+    obtain ⟨K1, h1, h2⟩ := bind_ok h
+    obtain ⟨ht, hp⟩ := coneTail_spec h2
+    refine ⟨?_, hp⟩
+    cases shape with
+    | triu => exact ((colcountDenseTriangle_triu_spec h1).trans ht).congr (by simp [hd])
+    | tril => exact ((colcountDenseTriangle_tril_spec h1).trans ht).congr (by simp [hd])
+
+-- ------------------------------------------------------------------ the cone loop
+
+/-- `starts` are the first rows of consecutive cones, the first cone starting at `r` -/
+def Starts : Nat → List ConeSpec → List Nat → Prop
+  | _, [], s => s = []
+  | r, c :: rest, s => ∃ s', s = r :: s' ∧ Starts (r + c.numel) rest s'
+
+theorem starts_range (r : Nat) (cones : List ConeSpec) :
+    Starts r cones ((List.range cones.length).map
+      (fun i => r + ((cones.map ConeSpec.numel).take i).sum)) := by
+  induction cones generalizing r with
+  | nil => simp [Starts]
+  | cons c rest ih =>
+    refine ⟨_, ?_, ih (r + c.numel)⟩
+    rw [List.length_cons, List.range_succ_eq_map]
+    simp only [List.map_cons, List.map_map, List.take_zero, List.sum_nil, Nat.add_zero]
+    congr 1
+    apply List.map_congr_left
+    intro i _
+    simp [List.take_succ_cons]
+    omega
+
+/-- `rng_cones` has the recursive characterisation `Starts` -/
+theorem starts_rngConesStart (cones : List ConeSpec) : Starts 0 cones (rngConesStart cones) := by
+  have := starts_range 0 cones
+  unfold rngConesStart rangeStarts
+  rw [exclusiveCumsum_eq]
+  simpa using this
+
+theorem conesSchedule_cons (c : ConeSpec) (rest : List ConeSpec) (row pcol : Nat)
+    (shape : MatrixTriangle) :
+    conesSchedule (α := α) (c :: rest) row pcol shape
+      = coneSchedule c row pcol shape
+        ++ conesSchedule rest (row + c.numel) (pcol + conePdim c) shape := rfl
+
+/-- the cone loop of `_kkt_assemble_colcounts` counts `conesSchedule` -/
+theorem conesFold_spec {n : Nat} {shape : MatrixTriangle} :
+    ∀ (cones : List ConeSpec) (starts : List Nat) (r : Nat), Starts r cones starts →
+    ∀ (K K' : Csc α) (pcol pcol' : Nat),
+      (cones.zip starts).foldlM (coneStep n shape) (K, pcol) = .ok (K', pcol') →
+      CountSpec K K' (conesSchedule cones (r + n) pcol shape)
+  | [], starts, r, _, K, K', pcol, pcol', h => by
+    simp only [List.zip_nil_left, List.foldlM_nil, pure, Except.pure, Except.ok.injEq,
+      Prod.mk.injEq] at h
+    obtain ⟨rfl, rfl⟩ := h
+    exact CountSpec.refl K
+  | c :: rest, starts, r, hst, K, K', pcol, pcol', h => by
+    obtain ⟨s', rfl, hst'⟩ := hst
+    rw [List.zip_cons_cons, List.foldlM_cons] at h
+    obtain ⟨⟨K1, p1⟩, h1, h2⟩ := bind_ok h
+    obtain ⟨hc, rfl⟩ := coneStep_spec h1
+    have ih := conesFold_spec rest s' (r + c.numel) hst' K1 K' _ pcol' h2
+    rw [conesSchedule_cons]
+    exact (hc.trans ih).congr (by rw [Nat.add_right_comm])
+
+-- ------------------------------------------------------------------ the whole pass
+
+/-- the cone loop as it sits at the end of `_kkt_assemble_colcounts` -/
+theorem conesLoop_spec {K1 K' : Csc α} {A : Csc α} {cones : List ConeSpec} {shape : MatrixTriangle}
+    (h : ((cones.zip (rngConesStart cones)).foldlM (coneStep A.n shape) (K1, A.m + A.n)
+      >>= fun r => pure r.1) = .ok K') :
+    CountSpec K1 K' (conesSchedule cones A.n (A.m + A.n) shape) := by
+  obtain ⟨⟨K2, p2⟩, hfold, h⟩ := bind_ok h
+  simp only [pure, Except.pure, Except.ok.injEq] at h
+  subst h
+  exact (conesFold_spec cones _ 0 (starts_rngConesStart cones) K1 K2 _ p2 hfold).congr
+    (by rw [Nat.zero_add])
+
+/-- `_kkt_assemble_colcounts` (after the reset of the counters) counts `kktSchedule` -/
+theorem kktAssembleColcounts_spec {K K' P A : Csc α} {cones : List ConeSpec}
+    {shape : MatrixTriangle} {sched : List (Entry α)} (hP : WF P) (hA : WF A)
+    (hc : kktAssembleColcounts K P A cones shape = .ok K')
+    (hs : kktSchedule P A cones shape = .ok sched) :
+    CountSpec { K with colptr := Array.replicate K.colptr.size 0 } K' sched := by
+  rw [kktAssembleColcounts_eq] at hc
+  unfold kktSchedule at hs
+  cases shape with
+  | triu =>
+    simp only [] at hc hs
+    obtain ⟨Ka, ha, hc⟩ := bind_ok hc
+    obtain ⟨Kb, hb, hc⟩ := bind_ok hc
+    obtain ⟨K1, hcA, hc⟩ := bind_ok hc
+    obtain ⟨sP, hsP, hs⟩ := bind_ok hs
+    obtain ⟨sD, hsD, hs⟩ := bind_ok hs
+    obtain ⟨sA, hsA, hs⟩ := bind_ok hs
+    obtain ⟨head, hh, hs⟩ := bind_ok hs
+    simp only [pure, Except.pure, Except.ok.injEq] at hh hs
+    subst hh
+    subst hs
+    exact (((colcountBlock_spec hP ha hsP).trans (colcountMissingDiag_spec hb hsD)).trans
+      (colcountBlock_spec hA hcA hsA)).trans (conesLoop_spec hc)
+  | tril =>
+    simp only [] at hc hs
+    obtain ⟨Ka, ha, hc⟩ := bind_ok hc
+    obtain ⟨Kb, hb, hc⟩ := bind_ok hc
+    obtain ⟨K1, hcA, hc⟩ := bind_ok hc
+    obtain ⟨sD, hsD, hs⟩ := bind_ok hs
+    obtain ⟨sP, hsP, hs⟩ := bind_ok hs
+    obtain ⟨sA, hsA, hs⟩ := bind_ok hs
+    obtain ⟨head, hh, hs⟩ := bind_ok hs
+    simp only [pure, Except.pure, Except.ok.injEq] at hh hs
+    subst hh
+    subst hs
+    exact (((colcountMissingDiag_spec ha hsD).trans (colcountBlock_spec hP hb hsP)).trans
+      (colcountBlock_spec hA hcA hsA)).trans (conesLoop_spec hc)
+
+/-- **The counting pass counts exactly the fill schedule**: after `_kkt_assemble_colcounts`
+every counter `colptr[c]` holds the number of entries that the fill schedule places in
+column `c`. -/
+theorem kktAssembleColcounts_counts (K K' : Csc α) (P A : Csc α) (cones : List ConeSpec)
+    (shape : MatrixTriangle) (sched : List (Entry α)) (hP : WF P) (hA : WF A)
+    (hc : kktAssembleColcounts K P A cones shape = .ok K')
+    (hs : kktSchedule P A cones shape = .ok sched) :
+    K'.colptr.size = K.colptr.size ∧
+      ∀ c, c < K.colptr.size → K'.colptr[c]? = some (cnt c sched) := by
+  have S := kktAssembleColcounts_spec hP hA hc hs
+  refine ⟨by simpa using S.colptr_size, fun c hlt => ?_⟩
+  rw [S.colptr_get c]
+  simp [hlt]
+
+/-- the pass touches nothing but the counters -/
+theorem kktAssembleColcounts_frame (K K' : Csc α) (P A : Csc α) (cones : List ConeSpec)
+    (shape : MatrixTriangle) (sched : List (Entry α)) (hP : WF P) (hA : WF A)
+    (hc : kktAssembleColcounts K P A cones shape = .ok K')
+    (hs : kktSchedule P A cones shape = .ok sched) :
+    K'.m = K.m ∧ K'.n = K.n ∧ K'.rowval = K.rowval ∧ K'.nzval = K.nzval := by
+  have S := kktAssembleColcounts_spec hP hA hc hs
+  exact ⟨S.m_eq, S.n_eq, S.rowval_eq, S.nzval_eq⟩
+
+-- ------------------------------------------------------------------ total of the counters
+
+omit [OfNat α 0] in
+theorem countP_lt_succ (N : Nat) (l : List (Entry α)) :
+    l.countP (fun e => decide (e.readCol < N + 1))
+      = l.countP (fun e => decide (e.readCol < N)) + cnt N l := by
+  induction l with
+  | nil => simp [cnt]
+  | cons e t ih =>
+    rw [List.countP_cons, List.countP_cons, cnt_cons, ih]
+    simp only [decide_eq_true_eq]
+    split <;> split <;> split <;> omega
+
+omit [OfNat α 0] in
+theorem sum_cnt_range (N : Nat) (l : List (Entry α)) :
+    ((List.range N).map (fun c => cnt c l)).sum = l.countP (fun e => decide (e.readCol < N)) := by
+  induction N with
+  | zero => simp
+  | succ N ih =>
+    rw [List.range_succ, List.map_append, List.sum_append, ih, countP_lt_succ]
+    simp
+
+/-- the counters add up to the number of scheduled entries whose column exists -/
+theorem kktAssembleColcounts_total (K K' : Csc α) (P A : Csc α) (cones : List ConeSpec)
+    (shape : MatrixTriangle) (sched : List (Entry α)) (hP : WF P) (hA : WF A)
+    (hc : kktAssembleColcounts K P A cones shape = .ok K')
+    (hs : kktSchedule P A cones shape = .ok sched) :
+    K'.colptr.toList.sum = sched.countP (fun e => decide (e.readCol < K.colptr.size)) := by
+  obtain ⟨hsz, hget⟩ := kktAssembleColcounts_counts K K' P A cones shape sched hP hA hc hs
+  rw [← sum_cnt_range]
+  congr 1
+  apply List.ext_getElem?
+  intro i
+  by_cases hi : i < K.colptr.size
+  · rw [Array.getElem?_toList, hget i hi]
+    simp [hi]
+  · have : K'.colptr.size ≤ i := by omega
+    simp [hi, this]
+
+/-- nnz closed form: if every scheduled column exists, the counters add up to the length of
+the schedule -/
+theorem kktAssembleColcounts_nnz (K K' : Csc α) (P A : Csc α) (cones : List ConeSpec)
+    (shape : MatrixTriangle) (sched : List (Entry α)) (hP : WF P) (hA : WF A)
+    (hc : kktAssembleColcounts K P A cones shape = .ok K')
+    (hs : kktSchedule P A cones shape = .ok sched)
+    (hcols : ∀ e ∈ sched, e.readCol < K.colptr.size) :
+    K'.colptr.toList.sum = sched.length := by
+  rw [kktAssembleColcounts_total K K' P A cones shape sched hP hA hc hs, List.countP_eq_length]
+  intro e he
+  simpa using hcols e he
 
 end Clarabel.Lemmas.KktCount
